@@ -69,6 +69,23 @@ def install(ex):
                 ex_.ghost[key] = VSym(ex_.fresh('cur_' + name, Val))
             return ex_.ghost[key]
         return f
+    def signal_signal(ex_, a, k):
+        """signal.signal in the child side of a process worker: terminate(force=True) (C04.L4) escalates to Process.terminate() = SIGTERM and relies on the
+        DEFAULT disposition, which the kernel applies whatever the interpreter is doing.  A Python-level handler runs only when the main thread is back in
+        the bytecode loop (never, under a C call that holds the interpreter lock) and as ordinary Python code (a pending WorkerTerminatedError aborts it)."""
+        from pyvc.core import Undecided
+        if '__childenv__' not in ex_.ghost or ex_.ghost.get('__child_kind__') != 'process':
+            raise Undecided('call of external signal.signal without a model')
+        sig, handler = a[0], a[1]
+        is_term = isinstance(sig, VExt) and sig.name.endswith('SIGTERM')
+        maybe_term = is_term or not isinstance(sig, VExt)
+        default = isinstance(handler, VExt) and handler.name.endswith('SIG_DFL')
+        ex_.oblige('rely', not (maybe_term and not default),
+                   'the child of a process worker leaves SIGTERM at its default disposition: terminate(force=True) relies on SIGTERM ending the child whatever the '
+                   'target does (a Python-level handler does not run under a C call holding the interpreter lock, and a pending WorkerTerminatedError aborts it)',
+                   ex_.ghost.get('__cur_node__'), key=('sigterm-disposition', getattr(ex_.ghost.get('__cur_node__'), 'lineno', 0)))
+        return VSym(ex_.fresh('old_handler', Val))
+    ex.ext_models['signal.signal'] = signal_signal
     ex.ext_models['platform.node'] = const('host')
     ex.ext_models['os.getpid'] = const('pid')
     ex.ext_models['threading.get_native_id'] = const('tid')
